@@ -681,8 +681,13 @@ pub fn run_check(prop: &dyn Prop, env: &CheckEnv) -> i32 {
     // ---- generator reach self-test (thorough tier)
     for p in prop.required_probes(env.tier) {
         if stats.probes.get(p).copied().unwrap_or(0) == 0 {
-            println!("HARNESS-ERROR property={} probe '{}' never hit: generator no longer reaches what the property is about", prop.id(), p);
-            exit = 2;
+            if exit == 0 {
+                println!("HARNESS-ERROR property={} probe '{}' never hit: generator no longer reaches what the property is about", prop.id(), p);
+                exit = 2;
+            } else {
+                // a violation was found and stands; exploration may have stopped before this probe's turn
+                println!("NOTE property={} probe '{}' not hit in this (violating) run", prop.id(), p);
+            }
         }
     }
 
